@@ -80,7 +80,7 @@ package cisco
 //vc:  ensures[C18] @nothingLost len(b0.sub) == len(prependACL) + len(appendACL) + ite(len(old(ab.aCmds)) > 0, len(old(ab.aCmds[0].sub)), 0)
 // every line of the merged ACL names the stored command as its parent: an incremental change of the line is sent under that command's (device) name
 //vc:  invariant[C18] 4 "for _, c := range acl" @linesKnowParentSoFar -1 <= rangeindex && rangeindex < len(acl) && (forall k int :: { acl[k] } 0 <= k && k <= rangeindex ==> acl[k].subCmdOf == b0)
-//vc:  ensures[C18] @mergedLinesKnowParent forall j int :: { b0.sub[j] } 0 <= j && j < len(b0.sub) ==> b0.sub[j].subCmdOf == b0
+//vc:  ensures[C18,C02] @mergedLinesKnowParent forall j int :: { b0.sub[j] } 0 <= j && j < len(b0.sub) ==> b0.sub[j].subCmdOf == b0
 
 // ASA: prepend ++ Netspoc lines (a terminating 'deny ip any6 any6' of the other
 // part goes to the end) and the [APPEND] block directly behind the last permit line.
@@ -545,3 +545,11 @@ package cisco
 //vc:  assign after "follow(c2)"#1 lastFollowed = c2
 //vc:  assert[C01,C07,C08] at "stillReferenced[pair{prefix, name}] = true" @referencedObjectProtected !c2.needed
 //vc:  invariant[C01,C07,C08] 2 "for _, c2 := range s.a.lookup[prefix][name]" @everyUnneededCommandFollowed forall k int :: { rangeslice[k] } k == rangeindex && 0 <= k && !rangeslice[k].needed ==> lastFollowed == rangeslice[k]
+
+// extractIntfInfo (closure 1 of checkIOSInterfaces): the lines of an interface
+// that describe the interface itself (addresses, shutdown, VRF, ip inspect in
+// either direction) are taken out of the list that is diffed later: a line kept
+// as sub-command never starts with one of these words, so the diff never
+// removes such a line from an interface of the device.
+//vc:func (*State).checkIOSInterfaces$1
+//vc:  assert[C07,C02] at "l[j] = sc" @interfaceDefinitionLinesNotDiffed sc.parsed != "shutdown" && !strings.CutPrefix$1(sc.parsed, "ip address ") && !strings.HasPrefix(sc.parsed, "ip unnumbered") && !strings.HasPrefix(sc.parsed, "ip inspect") && !strings.Cut$2(sc.parsed, "vrf forwarding ")
